@@ -57,6 +57,9 @@ pub struct Config {
     pub out_threshold: OutThreshold,
     /// keep a syscall log
     pub log: bool,
+    /// lowest descriptor number the process can be given (3 = stdin/stdout/stderr are open;
+    /// 0 = a daemon that closed them)
+    pub first_fd: i32,
 }
 
 impl Default for Config {
@@ -66,6 +69,7 @@ impl Default for Config {
             cap_s2c: 212_992,
             out_threshold: OutThreshold::Quarter,
             log: true,
+            first_fd: 3,
         }
     }
 }
@@ -260,8 +264,8 @@ impl World {
     }
 
     fn alloc_fd(&mut self, obj: FdObj) -> Fd {
-        // lowest free number >= 3, as Linux does
-        let mut i = 3;
+        // lowest free number (from 3 when the standard descriptors are open), as Linux does
+        let mut i = self.cfg.first_fd.max(0) as usize;
         loop {
             if i >= self.fds.len() {
                 self.fds.push(None);
